@@ -521,6 +521,15 @@ S["incomparable_reentry"] = dict(
     conns=[C("A", "D", "eo", "ti", weak=True), C("A", "X", "eo", "ti"), C("X", "B", "eo", "ti"),
            C("B", "Cc", "eo", "ti", weak=True), C("Cc", "D", "eo", "ti2", weak=True)])
 
+# one connection that is time-shifted AND weak next to a relayed route with the same two delays one
+# after the other (time-shifted, then weak): both arrive at the same sub-step, i.e. ONE step of A
+S["shift_weak_direct_and_relayed"] = dict(
+    until=4, groups=G1, max_loop=4,
+    sims=[E("B", group="g", init_event=0, emit_default=0, next=[1, 1]), E("R", group="g", emit_default=0),
+          E("A", group="g")],
+    conns=[C("B", "A", "eo", "ti", shift=1, weak=True), C("B", "R", "eo", "ti", shift=1),
+           C("R", "A", "eo", "ti2", weak=True)])
+
 # set_initial_event called twice for one simulator ("an initial step": the last call counts)
 S["two_initial_events_desc"] = dict(
     until=5, sims=[E("A", init_event=[3, 1], next=[None], emit_default=0), E("B")],
